@@ -314,7 +314,7 @@ class Envelope:
 
         # Check if given states are part of this envelope
         for s in states:
-            assert s in [self.fock, self.polarization]
+            assert s is self.fock or s is self.polarization
 
         outcomes = {}
         reshape_shape = []
@@ -737,7 +737,7 @@ class Envelope:
             raise ValueError("Too many states given")
 
         for s in states_list:
-            if s not in [self.polarization, self.fock]:
+            if s is not self.polarization and s is not self.fock:
                 raise ValueError(
                     "Given states have to be members of the envelope, "
                     "use env.fock and env.polarization"
